@@ -7,11 +7,11 @@ CONSTANTS
   Prod = {p1, p2}
   Cons = {c1, c2}
   Cap = 2
-  NSend <- S11
-  NRecv <- R11
+  NSend <- S22
+  NRecv <- R22
   TwoStep = TRUE
   PhotonSend = TRUE
-  Timed = TRUE
-  Bug = "late_idler"
+  Timed = FALSE
+  Bug = "none"
 SYMMETRY Sym
 INVARIANTS NotStuckNonEmpty NotStuckNonFull PendingMirrorsCount CountersSane Ledger
